@@ -3,7 +3,7 @@
     content of the key's input blocks, strictly increasing in time across blocks. *)
 From Coq Require Import ZifyBool.
 From Verif Require Import Base.Prelude Model.C37 Proofs.C37 Model.C04 Proofs.C04 Proofs.C04_size
-     Proofs.C04_blocks Proofs.C04_pend Proofs.C04_window Proofs.C04_dedup.
+     Proofs.C04_blocks Proofs.C04_pend Proofs.C04_window Proofs.C04_dedup Proofs.C04_term.
 Local Open Scope Z_scope.
 
 Section Run.
@@ -158,6 +158,24 @@ Section Run.
       constructor; [apply bwf_wfb, (ok_wf L b Bb)|exact Hw].
   Qed.
 
+  Definition plen (l : list blk) : nat := length (concat (map b_vals l)).
+
+  Lemma plen_app (a b : list blk) : plen (a ++ b) = (plen a + plen b)%nat.
+  Proof. unfold plen. rewrite map_app, concat_app, app_length. reflexivity. Qed.
+
+  Lemma eats_len L bs c r : eats bs c r -> nd_ok bs -> Forall (bok L) bs ->
+    (usum r + plen c <= usum bs)%nat.
+  Proof.
+    induction 1 as [bs|b r c r' R _ IH|b r c r' R _ IH]; intros Hnd B.
+    - unfold plen. cbn. lia.
+    - inversion B; subst. specialize (IH (nd_ok_tail _ _ Hnd) H2). cbn [usum]. lia.
+    - inversion B as [|? ? Bb Br]; subst. specialize (IH (nd_ok_tail _ _ Hnd) Br).
+      destruct Hnd as [F _]. inversion F as [|? ? [_ Hb] _]; subst.
+      assert (Fb : isfresh b) by (destruct Hb as [Hb|Hb]; [congruence|exact Hb]).
+      cbn [usum]. rewrite (fresh_unr b (ok_wf L b Bb) Fb).
+      unfold plen in *. cbn [map concat]. rewrite app_length. lia.
+  Qed.
+
   Lemma pass_full_eats : forall (bs merged m r : list blk),
     pass_full size bs merged = (m, r) -> exists c, m = merged ++ c /\ eats bs c r.
   Proof.
@@ -207,6 +225,32 @@ Section Run.
       + intros [= <- <-]. exists L. split; [lia|]. split; [exact Hd|left; lia].
   Qed.
 
+  Lemma decode_rest_len pre : forall (bs : list blk) mv L r mv',
+    nd_ok bs -> dinv L (pre ++ mv) bs -> decode_rest size bs mv = (r, mv') ->
+    (length mv' + usum r <= length mv + usum bs)%nat.
+  Proof.
+    induction bs as [|b r0 IH]; intros mv L r mv' Hnd Hd; cbn [decode_rest].
+    - intro H. inversion H; subst. lia.
+    - destruct (length mv <? size)%nat eqn:El.
+      + destruct (is_read b) eqn:R.
+        * intro H. specialize (IH mv L r mv' (nd_ok_tail _ _ Hnd) (dinv_skip L _ b r0 Hd R) H). cbn [usum]. lia.
+        * destruct Hnd as [F C]. inversion F as [|? ? [T Hb] Fr]; subst.
+          assert (Fb : isfresh b) by (destruct Hb as [Hb|Hb]; [congruence|exact Hb]).
+          pose proof (d_blocks sp L _ _ Hd) as B. inversion B as [|? ? Bb Br]; subst.
+          assert (Wr : Forall bwf r0) by (eapply Forall_impl; [|exact Br]; intros y Hy; apply (ok_wf L y Hy)).
+          destruct (dinv_consume L _ b r0 Hd Fb T (chainP_all r0 b Wr C)) as [HL Hd'].
+          rewrite T. cbn [apply_tombs fold_left].
+          assert (Em : arr_merge mv (b_vals b) = mv ++ b_vals b).
+          { pose proof (d_sorted sp L _ _ Hd) as S. apply ssorted_app_inv in S as [_ [Smv _]].
+            apply arr_merge_append; [exact Smv|apply (wf_sorted b (ok_wf L b Bb))|].
+            intros p q Hp Hq. pose proof (d_le sp L _ _ Hd p (in_or_app _ _ _ (or_intror Hp))).
+            assert (L < tm q); [|lia]. apply (ok_unr L b Bb). rewrite fresh_unr by (auto; apply (ok_wf L b Bb)). exact Hq. }
+          rewrite Em. rewrite <- app_assoc in Hd'. intro H.
+          specialize (IH _ _ _ _ (nd_ok_tail _ _ (conj F C)) Hd' H).
+          cbn [usum]. rewrite (fresh_unr b (ok_wf L b Bb) Fb). rewrite app_length in IH. lia.
+      + intro H. inversion H; subst. lia.
+  Qed.
+
   (** *** [chunk] *)
   Lemma chunk_spec (dst : list blk) (mv : arr) : ssorted mv ->
     exists c mv', chunk size dst mv = (dst ++ c, mv') /\ concat (map b_vals c) ++ mv' = mv /\
@@ -229,34 +273,38 @@ Section Run.
     g_d : dinv L (pre_of E s ++ s_mv s) (s_blocks s);
     g_wf : Forall wfb (E ++ s_merged s) }.
 
+  Definition pot (s : st) : nat := (usum (s_blocks s) + length (s_mv s) + plen (s_merged s))%nat.
+
   Lemma nonempty_false {A} (l : list A) : nonempty l = false -> l = [].
   Proof. destruct l; [reflexivity|discriminate]. Qed.
   Lemma nonempty_true {A} (l : list A) : nonempty l = true -> l <> [].
   Proof. destruct l; [discriminate|congruence]. Qed.
 
-  Lemma dinv_sort L D bs : dinv L D bs -> dinv L D (sort_blocks bs) /\ adj (sort_blocks bs).
+  Lemma dinv_sort L D bs : dinv L D bs -> dinv L D (isort bs) /\ adj (isort bs).
   Proof.
     intros [B S Le Sp].
     assert (W : Forall bwf bs) by (eapply Forall_impl; [|exact B]; intros y Hy; apply (ok_wf L y Hy)).
-    split; [split; auto|apply sort_blocks_adj; exact W].
-    - apply sort_blocks_Forall. exact B.
-    - intro t. rewrite plast_sort by exact W. apply Sp.
+    split; [split; auto|apply isort_adj; exact W].
+    - apply isort_Forall. exact B.
+    - intro t. rewrite plast_isort by exact W. apply Sp.
   Qed.
 
+  Definition small (s : st) : Prop := (length (s_blocks s) <= 20)%nat.
+
   Lemma merge_spec fuel L E s s' :
-    ginv L E s -> s_merged s = [] -> merge fuel size fast s = Some s' ->
+    ginv L E s -> small s -> s_merged s = [] -> merge fuel size fast s = Some s' ->
     exists L', ginv L' E s' /\ (s_mv s' <> [] -> s_merged s' <> []) /\
-               (s_merged s' = [] -> s_mv s' = [] -> s_blocks s' = []).
+               (s_merged s' = [] -> s_mv s' = [] -> s_blocks s' = []) /\ (pot s' <= pot s)%nat.
   Proof.
-    intros [Hd Hw] Hm. unfold merge.
+    intros [Hd Hw] Hsm Hm. unfold merge. rewrite (sort_blocks_small _ Hsm).
     destruct (negb (nonempty (s_blocks s)) && negb (nonempty (s_merged s)) && negb (nonempty (s_mv s))) eqn:E0.
-    - intros [= <-]. exists L. split; [split; assumption|]. split.
+    - intros [= <-]. exists L. split; [split; assumption|]. split; [|split; [|lia]].
       + intro H. exfalso. apply H. apply nonempty_false. destruct (nonempty (s_mv s)); [|reflexivity].
         rewrite !andb_false_r in E0. discriminate.
       + intros _ _. apply nonempty_false. destruct (nonempty (s_blocks s)); [discriminate|reflexivity].
     - clear E0. unfold pre_of in Hd. rewrite Hm in Hd, Hw. rewrite app_nil_r in Hd, Hw.
       destruct (dinv_sort L _ _ Hd) as [Hds Ha].
-      set (bs := sort_blocks (s_blocks s)) in *. set (pre := concat (map b_vals E)) in *.
+      set (bs := isort (s_blocks s)) in *. set (pre := concat (map b_vals E)) in *.
       unfold combine. cbn [s_blocks s_merged s_mv]. rewrite Hm.
       destruct (nonempty (s_mv s) || need_dedup bs) eqn:Ed.
       + (* dedup path *)
@@ -264,11 +312,15 @@ Section Run.
         destruct (dedup_loop_spec sp size size_pos pre fuel L bs (s_mv s) bs' mv1 Hds Ha El) as [L' [HL' [Hd' Hend]]].
         pose proof (d_sorted sp L' _ _ Hd') as S. apply ssorted_app_inv in S as [_ [Smv _]].
         destruct (chunk_spec [] mv1 Smv) as [c [mv2 [Ec [Hc [Hwc [Hne Hnil]]]]]].
-        rewrite Ec. cbn [app]. intros [= <-]. exists L'. split; [split|split]; cbn [s_blocks s_merged s_mv].
+        pose proof (dedup_loop_len sp size size_pos pre fuel L bs (s_mv s) bs' mv1 Hds Ha El) as Hlen.
+        rewrite Ec. cbn [app]. intros [= <-]. exists L'. split; [split|split; [|split]]; cbn [s_blocks s_merged s_mv].
         * unfold pre_of. cbn [s_merged]. rewrite map_app, concat_app, <- app_assoc, Hc. exact Hd'.
         * apply Forall_app. split; assumption.
         * exact Hne.
         * intros -> _. specialize (Hnil eq_refl). rewrite Hnil in Hend. destruct Hend as [He|He]; [cbn in He; lia|exact He].
+        * unfold pot. cbn [s_blocks s_merged s_mv]. rewrite Hm. unfold plen at 2. cbn [map concat length].
+          assert (Hl : (plen c + length mv2 = length mv1)%nat) by (unfold plen; rewrite <- Hc, app_length; reflexivity).
+          pose proof (usum_isort size size_pos (s_blocks s)) as Hus. fold bs in Hus. lia.
       + (* non-dedup path *)
         apply orb_false_iff in Ed as [Emv End]. apply nonempty_false in Emv.
         pose proof (need_dedup_false bs Ha End) as Hnd.
@@ -297,7 +349,9 @@ Section Run.
         destruct (decode_rest_spec _ r3 [] L3 r4 mv1 Hnd3 Hd3 E4) as [L4 [HL4 [Hd4 Hend]]].
         pose proof (d_sorted sp L4 _ _ Hd4) as S. apply ssorted_app_inv in S as [_ [Smv _]].
         destruct (chunk_spec ((c1 ++ c2) ++ c3) mv1 Smv) as [c [mv2 [Ec [Hc [Hwc [Hne Hnil]]]]]].
-        rewrite Ec. intros [= <-]. exists L4. split; [split|split]; cbn [s_blocks s_merged s_mv].
+        pose proof (eats_len L _ _ _ He Hnd (d_blocks sp L _ _ Hds)) as Hlen1.
+        pose proof (decode_rest_len _ r3 [] L3 r4 mv1 Hnd3 Hd3 E4) as Hlen2.
+        rewrite Ec. intros [= <-]. exists L4. split; [split|split; [|split]]; cbn [s_blocks s_merged s_mv].
         * unfold pre_of. cbn [s_merged]. rewrite !map_app, !concat_app, <- !app_assoc.
           rewrite <- !app_assoc in Hd4. rewrite !map_app, !concat_app, <- !app_assoc in Hd4.
           rewrite Hc. exact Hd4.
@@ -305,6 +359,10 @@ Section Run.
         * intros H Hn. apply app_eq_nil in Hn as [_ Hn]. exact (Hne H Hn).
         * intros Hn _. apply app_eq_nil in Hn as [_ Hn]. specialize (Hnil Hn). rewrite Hnil in Hend.
           destruct Hend as [He'|He']; [cbn in He'; lia|exact He'].
+        * unfold pot. cbn [s_blocks s_merged s_mv]. rewrite Hm, Emv. unfold plen at 2. cbn [map concat length].
+          rewrite plen_app.
+          assert (Hl : (plen c + length mv2 = length mv1)%nat) by (unfold plen; rewrite <- Hc, app_length; reflexivity).
+          pose proof (usum_isort size size_pos (s_blocks s)) as Hus. fold bs in Hus. cbn [length] in Hlen2. lia.
   Qed.
 
   (** final condition: everything has been handed on *)
@@ -319,15 +377,16 @@ Section Run.
   Qed.
 
   Lemma next_spec fuel L E s r :
-    ginv L E s -> next fuel size fast s = Some r ->
+    ginv L E s -> small s -> next fuel size fast s = Some r ->
     match r with
     | Some s' => exists L', ginv L' (E ++ firstn 1 (s_merged s)) s' /\ s_merged s' <> []
     | None => finished (E ++ firstn 1 (s_merged s))
     end.
   Proof.
-    intros Hg. unfold next.
+    intros Hg Hsm. unfold next.
     set (s1 := match s_merged s with [] => s | _ :: m => mkst (s_blocks s) m (s_mv s) end).
     set (E1 := E ++ firstn 1 (s_merged s)).
+    assert (Hsm1 : small s1) by (subst s1; unfold small in *; destruct (s_merged s); exact Hsm).
     assert (H1 : ginv L E1 s1).
     { subst s1 E1. destruct Hg as [Hd Hw]. unfold pre_of in Hd. destruct (s_merged s) as [|h m] eqn:Em.
       - cbn [firstn]. rewrite app_nil_r. split; [unfold pre_of; rewrite Em; exact Hd|rewrite Em; exact Hw].
@@ -337,7 +396,7 @@ Section Run.
     destruct (nonempty (s_merged s1)) eqn:En.
     - intros [= <-]. exists L. split; [exact H1|apply nonempty_true; exact En].
     - apply nonempty_false in En.
-      assert (Hstep2 : forall L2 s2, ginv L2 E1 s2 -> s_merged s2 = [] -> s_mv s2 = [] ->
+      assert (Hstep2 : forall L2 s2, ginv L2 E1 s2 -> small s2 -> s_merged s2 = [] -> s_mv s2 = [] ->
         (if nonempty (s_blocks s2)
          then match merge fuel size fast s2 with
               | None => None
@@ -348,9 +407,9 @@ Section Run.
         | Some s' => exists L', ginv L' E1 s' /\ s_merged s' <> []
         | None => finished E1
         end).
-      { intros L2 s2 H2 Hm2 Hv2. destruct (nonempty (s_blocks s2)) eqn:Eb.
+      { intros L2 s2 H2 Hsm2 Hm2 Hv2. destruct (nonempty (s_blocks s2)) eqn:Eb.
         - destruct (merge fuel size fast s2) as [s3|] eqn:Emg; [|discriminate].
-          destruct (merge_spec fuel L2 E1 s2 s3 H2 Hm2 Emg) as [L3 [H3 [Hne Hfin]]].
+          destruct (merge_spec fuel L2 E1 s2 s3 H2 Hsm2 Hm2 Emg) as [L3 [H3 [Hne [Hfin _]]]].
           destruct (nonempty (s_merged s3) || nonempty (s_mv s3)) eqn:E3; intros [= <-].
           + exists L3. split; [exact H3|]. destruct (nonempty (s_merged s3)) eqn:E4; [apply nonempty_true; exact E4|].
             cbn in E3. apply Hne, nonempty_true, E3.
@@ -359,26 +418,28 @@ Section Run.
         - intros [= <-]. apply nonempty_false in Eb. apply (ginv_finished L2 E1 s2 H2 Hm2 Hv2 Eb). }
       destruct (nonempty (s_mv s1)) eqn:Ev.
       + destruct (merge fuel size fast s1) as [s3|] eqn:Emg; [|discriminate].
-        destruct (merge_spec fuel L E1 s1 s3 H1 En Emg) as [L3 [H3 [Hne Hfin]]].
+        destruct (merge_spec fuel L E1 s1 s3 H1 Hsm1 En Emg) as [L3 [H3 [Hne [Hfin _]]]].
+        assert (Hsm3 : small s3) by (pose proof (merge_length size _ _ _ _ Hsm1 Emg); unfold small in *; lia).
         destruct (nonempty (s_merged s3) || nonempty (s_mv s3)) eqn:E3.
         * intros [= <-]. exists L3. split; [exact H3|].
           destruct (nonempty (s_merged s3)) eqn:E4; [apply nonempty_true; exact E4|].
           cbn in E3. apply Hne, nonempty_true, E3.
         * apply orb_false_iff in E3 as [E4 E5]. apply nonempty_false in E4, E5.
-          apply (Hstep2 L3 s3 H3 E4 E5).
-      + apply nonempty_false in Ev. apply (Hstep2 L s1 H1 En Ev).
+          apply (Hstep2 L3 s3 H3 Hsm3 E4 E5).
+      + apply nonempty_false in Ev. apply (Hstep2 L s1 H1 Hsm1 En Ev).
   Qed.
 
   Lemma run_key_spec : forall fuel L E s out,
-    ginv L E s -> run_key fuel size fast s = Some out ->
+    ginv L E s -> small s -> run_key fuel size fast s = Some out ->
     finished (E ++ firstn 1 (s_merged s) ++ out).
   Proof.
-    induction fuel as [|f IH]; intros L E s out Hg; cbn [run_key]; [discriminate|].
+    induction fuel as [|f IH]; intros L E s out Hg Hsm; cbn [run_key]; [discriminate|].
     destruct (next (S f) size fast s) as [r|] eqn:En; [|discriminate].
-    pose proof (next_spec (S f) L E s r Hg En) as Hn. destruct r as [s'|].
+    pose proof (next_spec (S f) L E s r Hg Hsm En) as Hn. destruct r as [s'|].
     - destruct Hn as [L' [Hg' Hne]].
+      assert (Hsm' : small s') by (pose proof (next_length size _ _ _ _ Hsm En); unfold small in *; lia).
       destruct (run_key f size fast s') as [o|] eqn:Er; [|discriminate]. intros [= <-].
-      pose proof (IH L' _ s' o Hg' Er) as Hf.
+      pose proof (IH L' _ s' o Hg' Hsm' Er) as Hf.
       unfold read_head. destruct (s_merged s') as [|h m]; [congruence|].
       cbn [firstn app] in Hf. rewrite <- app_assoc in Hf. exact Hf.
     - intros [= <-]. rewrite app_nil_r. exact Hn.
@@ -422,19 +483,19 @@ Section Key.
   Qed.
 
   Theorem run_key_content (size : nat) (fast : bool) (bs : list blk) fuel out :
-    (0 < size)%nat -> Forall bwf bs -> Forall isfresh bs ->
+    (0 < size)%nat -> (length bs <= 20)%nat -> Forall bwf bs -> Forall isfresh bs ->
     run_key fuel size fast (mkst bs [] []) = Some out ->
     concat (map b_vals out) = last_wins_sorted (concat (map live0 bs))
     /\ Forall (fun b => wf_blk b = true) out /\ ordered out = true.
   Proof.
-    intros Hs W F Hrun.
+    intros Hs Hsm W F Hrun.
     set (sp := fun t => plast t bs).
     assert (Hg : ginv sp (MinInt64 - 1) [] (mkst bs [] [])).
     { split; cbn; [|constructor]. split; cbn; auto.
       - apply Forall_forall. intros b Hb. rewrite Forall_forall in W, F.
         apply isfresh_bok; auto. intros p Hp. pose proof (wf_range b (W b Hb) p Hp). unfold MinInt64, MaxInt64 in *. lia.
       - intros p []. }
-    pose proof (run_key_spec sp size Hs fast fuel _ [] _ out Hg Hrun) as [S [Sp Wf]].
+    pose proof (run_key_spec sp size Hs fast fuel _ [] _ out Hg Hsm Hrun) as [S [Sp Wf]].
     cbn [s_merged firstn app] in *.
     assert (Epend : pendl bs = concat (map live0 bs)).
     { unfold pendl. f_equal. apply map_ext_in. intros b Hb. rewrite Forall_forall in W, F.
